@@ -103,8 +103,8 @@ Proof.
   - destruct Hc.
   - clear IHl2'. rewrite app_comm_cons, app_assoc in E. apply app_inj_tail in E. destruct E as [E ->].
     apply in_app_or in Hc. destruct Hc as [Hc|[<-|[]]].
-    + apply (Hs l1 a' l2'); [symmetry; exact E|exact Hc].
-    + apply Hlt. rewrite <- E. apply in_or_app. right. left. reflexivity.
+    + apply (Hs l1 a' l2'); [exact E|exact Hc].
+    + apply Hlt. rewrite E. apply in_or_app. right. left. reflexivity.
 Qed.
 
 (* positions follow stamps inside one batch *)
@@ -209,12 +209,720 @@ Record MInvB (b : N) (s : mstate) : Prop := {
              In sa (m_subs s) -> In sb (m_subs s) -> s_task sa = r_task ra -> s_task sb = r_task rb ->
              s_e sa < s_e sb -> run_before ra rb = true;
   (* the K2 window leaves a trace: the shard had a drain *)
-  q_k2 : forall k, (k < length (m_shards s))%nat -> sh_tok (m_sh s k) = TNone -> sh_queue (m_sh s k) <> [] ->
+  q_ktwo : forall k, (k < length (m_shards s))%nat -> sh_tok (m_sh s k) = TNone -> sh_queue (m_sh s k) <> [] ->
            exists d, In d (m_drains s) /\ d_shard d = N.of_nat k;
   q_shc : m_shclosed s = true -> m_closed s = true;
   q_close : close_inv b s;
   q_cb : m_cb s <= b }.
 
 Definition MInv (s : mstate) : Prop := MInvB (m_now s) s.
+
+(* ---- small facts ----------------------------------------------------------------------------- *)
+
+Lemma okset_cons_notok sb subs x : s_res sb <> ROk -> (okset (sb :: subs) x <-> okset subs x).
+Proof.
+  intro H. split.
+  - intros (s0 & [<-|Hin] & E1 & E2); [contradiction|]. exists s0. auto.
+  - intros (s0 & Hin & E). exists s0. split; [right; exact Hin|exact E].
+Qed.
+
+Lemma okset_cons_ok x0 sh st e subs x :
+  okset (Sub x0 sh st e ROk :: subs) x <-> x = x0 \/ okset subs x.
+Proof.
+  split.
+  - intros (s0 & [<-|Hin] & E1 & E2); [left; symmetry; exact E1|right; exists s0; auto].
+  - intros [->|(s0 & Hin & E)].
+    + eexists. split; [left; reflexivity|split; reflexivity].
+    + exists s0. split; [right; exact Hin|exact E].
+Qed.
+
+Lemma mbmax_pos : (1 <= mbmax)%nat.
+Proof. unfold Model.WorkQueue_mailbox.mbmax. lia. Qed.
+
+Lemma all_unscheduled_nth l k : all_unscheduled l = true -> sh_tok (nth k l sh0) = TNone.
+Proof.
+  intro H. destruct (nth_In_or_default k l sh0) as [Hin|E]; [|rewrite E; reflexivity].
+  unfold all_unscheduled in H. rewrite forallb_forall in H. specialize (H _ Hin).
+  destruct (sh_tok (nth k l sh0)); try discriminate. reflexivity.
+Qed.
+
+Ltac prj := cbn [m_now m_closed m_shclosed m_shards m_pcs m_close m_cb m_subs m_runs m_drains m_clos
+                 s_task s_shard s_b s_e s_res r_task r_shard r_b r_e r_pos d_shard d_b d_e map] in *.
+
+Ltac unf := unfold MInv, all_tasks, close_inv in *;
+            unfold m_set_pc, m_ret, m_set_sh, m_upd, m_set_close, m_tick in *;
+            unfold m_pc, m_sh in *; prj.
+
+(* ---- preservation ---------------------------------------------------------------------------- *)
+
+Lemma inv_mono b b' s : b <= b' -> MInvB b s -> MInvB b' s.
+Proof.
+  intros Hb [ ]. constructor; auto.
+  - intros sb Hsb. destruct (q_subs0 sb Hsb) as (A & B & C & D). repeat split; auto; lia.
+  - intros t x st k E. destruct (q_pcs0 t x st k E) as (A & B & C & D). repeat split; auto; lia.
+  - intros r Hr. destruct (q_runs0 r Hr) as (A & B & C). repeat split; auto; lia.
+  - intros d Hd. destruct (q_drains0 d Hd) as (A & B). split; auto; lia.
+  - intros k db E. specialize (q_tok_db0 k db E). lia.
+  - intros k db rb it E. specialize (q_tok_rb0 k db rb it E). lia.
+  - intros k x e E. specialize (q_stamp0 k x e E). lia.
+  - unfold close_inv in *. destruct (m_close s); auto.
+    + destruct q_close0 as (A & B & C & D & E). repeat split; auto; lia.
+    + destruct q_close0 as (A & B & C & D & E). repeat split; auto; lia.
+    + destruct q_close0 as (A & B & C & D & E). repeat split; auto; lia.
+    + destruct q_close0 as (A & B & C & ce & D & E & F & G). repeat split; auto.
+      exists ce. repeat split; auto; lia.
+  - lia.
+Qed.
+
+Lemma inv_tick s : MInv s -> MInvB (m_now s) (m_tick s).
+Proof. intros [ ]. constructor; auto. Qed.
+
+Lemma inv_call b s t k : MInvB b s -> b < m_now s -> m_pc s t = MIdle -> (k < length (m_shards s))%nat ->
+  MInv (m_set_pc s t (MCheck (m_now s) (m_now s) k)).
+Proof.
+  intros HI Hb Hpc Hk. pose proof (inv_mono b (m_now s) s ltac:(lia) HI) as HM.
+  pose proof (q_subs _ _ HI) as H1. pose proof (q_pcs _ _ HI) as H3. destruct HM as [ ].
+  destruct s as [now closed shclosed shards pcs close cb subs runs drains clos]. unf.
+  constructor; unf; auto.
+  - intros t0 x st k0. rewrite nth_set_nth. destruct (Nat.eqb_spec t t0) as [E|Hne]; [|apply q_pcs0].
+    cbn [pc_task]. intro E'. inversion E'; subst. repeat split; try lia.
+    intro Hin. apply in_map_iff in Hin. destruct Hin as (sb & Es & Hin).
+    destruct (H1 sb Hin) as (A & _). lia.
+  - intros t0 t' x st k0 x' st' k' Hne. rewrite !nth_set_nth.
+    destruct (Nat.eqb_spec t t0) as [E0|N0]; destruct (Nat.eqb_spec t t') as [E1|N1]; try congruence.
+    + cbn [pc_task]. intros E E'. inversion E; subst. destruct (H3 _ _ _ _ E') as (A & _). lia.
+    + cbn [pc_task]. intros E E'. inversion E'; subst. destruct (H3 _ _ _ _ E) as (A & _). lia.
+    + apply q_pcs_d0. exact Hne.
+Qed.
+
+Lemma inv_pc_move b s t p : MInvB b s -> pc_task p = pc_task (m_pc s t) -> MInvB b (m_set_pc s t p).
+Proof.
+  intros [ ] Hp.
+  destruct s as [now closed shclosed shards pcs close cb subs runs drains clos]. unf.
+  constructor; unf; auto.
+  - intros t0 x st k0. rewrite nth_set_nth. destruct (Nat.eqb_spec t t0) as [E|Hne]; [|apply q_pcs0].
+    rewrite Hp. apply q_pcs0.
+  - intros t0 t' x st k0 x' st' k' Hne. rewrite !nth_set_nth.
+    destruct (Nat.eqb_spec t t0) as [E0|N0]; destruct (Nat.eqb_spec t t') as [E1|N1]; try congruence;
+      try subst t0; try subst t'; rewrite ?Hp; apply q_pcs_d0; exact Hne.
+Qed.
+
+(* facts about a fresh Submit record, shared by rejection and admission *)
+Lemma run_task_in_subs b s r : MInvB b s -> In r (m_runs s) -> In (r_task r) (map s_task (m_subs s)).
+Proof.
+  intros HI Hr. destruct (q_run_link _ _ HI r Hr) as (sb & Hin & E & _). rewrite <- E. apply in_map. exact Hin.
+Qed.
+
+Lemma inv_ret_rej b s t x st k r : MInvB b s -> b < m_now s -> pc_task (m_pc s t) = Some (x, st, k) ->
+  r <> ROk -> MInv (m_ret s t x st k r (m_shards s)).
+Proof.
+  intros HI Hb Hpc Hr. pose proof (inv_mono b (m_now s) s ltac:(lia) HI) as HM.
+  pose proof (q_pcs _ _ HI) as H3. assert (Hrt : forall r0, In r0 (m_runs s) -> In (r_task r0) (map s_task (m_subs s))) by (intros r0; apply (run_task_in_subs b s r0 HI)).
+  destruct HM as [ ].
+  destruct s as [now closed shclosed shards pcs close cb subs runs drains clos]. unf.
+  destruct (H3 _ _ _ _ Hpc) as (Hx & Hst & Hfresh & Hk).
+  constructor; unf; auto.
+  - intros sb [<-|Hin]; [|apply q_subs0; exact Hin]. prj. repeat split; try lia.
+  - constructor; [exact Hfresh|exact q_subs_nd0].
+  - intros t0 x0 st0 k0. rewrite nth_set_nth. destruct (Nat.eqb_spec t t0) as [E|Hne]; [discriminate|].
+    intro E. destruct (q_pcs0 _ _ _ _ E) as (A & B & C & D). repeat split; auto.
+    intros [E0|Hin]; [|apply C; exact Hin]. subst x0. apply (q_pcs_d0 t t0 x st k x st0 k0 Hne Hpc E). reflexivity.
+  - intros t0 t' x0 st0 k0 x' st' k' Hne. rewrite !nth_set_nth.
+    destruct (Nat.eqb_spec t t0) as [E0|N0]; destruct (Nat.eqb_spec t t') as [E1|N1]; try discriminate.
+    apply q_pcs_d0. exact Hne.
+  - intros k0 x0 e Hin. destruct (q_link0 k0 x0 e Hin) as (sb & A & B). exists sb. split; [right; exact A|exact B].
+  - intros r0 Hr0. destruct (q_run_link0 r0 Hr0) as (sb & A & B). exists sb. split; [right; exact A|exact B].
+  - intros x0 Hx0. apply okset_cons_notok in Hx0; [|exact Hr]. apply q_ok_pl0. exact Hx0.
+  - intros r0 sb Hr0 [<-|Hsb] Et; [prj; exfalso; apply Hfresh; rewrite Et; apply Hrt; exact Hr0|].
+    apply (q_run_items0 r0 sb Hr0 Hsb Et).
+  - intros ra rb sa sb Hra Hrb Hs [<-|Hsa] [<-|Hsb] Ea Eb; prj;
+      try (exfalso; apply Hfresh; rewrite Ea; apply Hrt; assumption);
+      try (exfalso; apply Hfresh; rewrite Eb; apply Hrt; assumption).
+    apply (q_fifo0 ra rb sa sb); assumption.
+Qed.
+
+Lemma tok_sched_items sh : tok_items (match sh_tok sh with TNone => TSched | q => q end) = tok_items (sh_tok sh).
+Proof. destruct (sh_tok sh); reflexivity. Qed.
+
+(* the shard.mu critical section admits the item *)
+Lemma inv_ret_ok b s t x st k : MInvB b s -> b < m_now s -> pc_task (m_pc s t) = Some (x, st, k) ->
+  m_closed s = false ->
+  MInv (m_ret s t x st k ROk
+          (set_nth k (Sh (sh_queue (m_sh s k) ++ [(x, m_now s)])
+                         (match sh_tok (m_sh s k) with TNone => TSched | p => p end)) sh0 (m_shards s))).
+Proof.
+  intros HI Hb Hpc Hcl. pose proof (inv_mono b (m_now s) s ltac:(lia) HI) as HM.
+  pose proof (q_pcs _ _ HI) as H3. pose proof (q_subs _ _ HI) as H1. pose proof (q_stamp _ _ HI) as Hstamp.
+  assert (Hrt : forall r0, In r0 (m_runs s) -> In (r_task r0) (map s_task (m_subs s))) by (intros r0; apply (run_task_in_subs b s r0 HI)).
+  destruct HM as [ ].
+  destruct s as [now closed shclosed shards pcs close cb subs runs drains clos]. unf. subst closed.
+  destruct (H3 _ _ _ _ Hpc) as (Hx & Hst & Hfresh & Hk).
+  set (old := nth k shards sh0) in *.
+  set (new := Sh (sh_queue old ++ [(x, now)]) (match sh_tok old with TNone => TSched | p => p end)).
+  assert (Hit : sh_items new = sh_items old ++ [(x, now)]).
+  { unfold sh_items, new. cbn [sh_tok sh_queue]. rewrite tok_sched_items, app_assoc. reflexivity. }
+  assert (Htk : sh_tasks new = sh_tasks old ++ [x]).
+  { unfold sh_tasks. rewrite Hit, map_app. reflexivity. }
+  assert (Hlen : length (set_nth k new sh0 shards) = length shards) by (apply length_set_nth; exact Hk).
+  assert (Hnth : forall k0, nth k0 (set_nth k new sh0 shards) sh0 = if Nat.eqb k k0 then new else nth k0 shards sh0)
+    by (intro k0; apply nth_set_nth).
+  assert (Hnotin : ~ In x (flat_map sh_tasks shards ++ map r_task runs)).
+  { intro Hin. apply in_app_or in Hin. destruct Hin as [Hin|Hin].
+    - apply in_flat_map_nth in Hin. destruct Hin as (k0 & _ & Hin). unfold sh_tasks in Hin.
+      apply in_map_iff in Hin. destruct Hin as ([x0 e0] & E & Hin). cbn [fst] in E. subst x0.
+      destruct (q_link0 k0 x e0 Hin) as (sb & A & B & _). apply Hfresh. rewrite <- B. apply in_map. exact A.
+    - apply in_map_iff in Hin. destruct Hin as (r0 & E & Hr0). apply Hfresh. rewrite <- E. apply Hrt. exact Hr0. }
+  assert (Hcnt : forall y, cnt y (flat_map sh_tasks (set_nth k new sh0 shards) ++ map r_task runs)
+                  = ((if N.eqb x y then 1 else 0) + cnt y (flat_map sh_tasks shards ++ map r_task runs))%nat).
+  { intro y. pose proof (cnt_shards_set_nth y k new shards Hk) as E. fold old in E. rewrite Htk in E.
+    rewrite !cnt_app in *. rewrite cnt_cons, cnt_nil in E. lia. }
+  constructor; unf; rewrite ?Hlen; auto.
+  - intros sb [<-|Hin]; [|apply q_subs0; exact Hin]. prj. repeat split; try lia.
+  - constructor; [exact Hfresh|exact q_subs_nd0].
+  - intros t0 x0 st0 k0. rewrite nth_set_nth. destruct (Nat.eqb_spec t t0) as [E|Hne]; [discriminate|].
+    intro E. destruct (q_pcs0 _ _ _ _ E) as (A & B & C & D). repeat split; auto.
+    intros [E0|Hin]; [|apply C; exact Hin]. subst x0. apply (q_pcs_d0 t t0 x st k x st0 k0 Hne Hpc E). reflexivity.
+  - intros t0 t' x0 st0 k0 x' st' k' Hne. rewrite !nth_set_nth.
+    destruct (Nat.eqb_spec t t0) as [E0|N0]; destruct (Nat.eqb_spec t t') as [E1|N1]; try discriminate.
+    apply q_pcs_d0. exact Hne.
+  - intros k0 db. rewrite Hnth. destruct (Nat.eqb_spec k k0) as [E|N0]; [|apply q_tok_db0].
+    unfold new. cbn [sh_tok]. intro E0. apply (q_tok_db0 k db). fold old. destruct (sh_tok old); try discriminate; exact E0.
+  - intros k0 db rb it. rewrite Hnth. destruct (Nat.eqb_spec k k0) as [E|N0]; [|apply q_tok_rb0].
+    unfold new. cbn [sh_tok]. intro E0. apply (q_tok_rb0 k db rb it). fold old. destruct (sh_tok old); try discriminate; exact E0.
+  - intros k0 x0 e. rewrite Hnth. destruct (Nat.eqb_spec k k0) as [E|N0]; [|apply q_stamp0].
+    rewrite Hit. intro Hin. apply in_app_or in Hin. destruct Hin as [Hin|[E0|[]]].
+    + apply (q_stamp0 k x0 e). exact Hin.
+    + inversion E0; subst. lia.
+  - intro y. rewrite Hcnt. destruct (N.eqb_spec x y) as [E|E]; [|apply q_once0].
+    subst y. assert (cnt x (flat_map sh_tasks shards ++ map r_task runs) = 0%nat).
+    { pose proof (cnt_In x (flat_map sh_tasks shards ++ map r_task runs)) as X.
+      destruct (cnt x (flat_map sh_tasks shards ++ map r_task runs)); [reflexivity|]. exfalso. apply Hnotin. apply X. lia. }
+    lia.
+  - intros k0 x0 e. rewrite Hnth. destruct (Nat.eqb_spec k k0) as [E|N0].
+    + rewrite Hit. intro Hin. apply in_app_or in Hin. destruct Hin as [Hin|[E0|[]]].
+      * subst k0. destruct (q_link0 k x0 e Hin) as (sb & A & B). exists sb. split; [right; exact A|exact B].
+      * inversion E0; subst. eexists. split; [left; reflexivity|]. prj. repeat split; reflexivity.
+    + intro Hin. destruct (q_link0 k0 x0 e Hin) as (sb & A & B). exists sb. split; [right; exact A|exact B].
+  - intros r0 Hr0. destruct (q_run_link0 r0 Hr0) as (sb & A & B). exists sb. split; [right; exact A|exact B].
+  - intros y Hy. apply okset_cons_ok in Hy. apply cnt_In. rewrite Hcnt. destruct Hy as [->|Hy].
+    + rewrite N.eqb_refl. lia.
+    + apply q_ok_pl0 in Hy. apply cnt_In in Hy. lia.
+  - intros k0. rewrite Hnth. destruct (Nat.eqb_spec k k0) as [E|N0]; [|apply q_items_len0].
+    unfold new. cbn [sh_tok]. rewrite tok_sched_items. apply q_items_len0.
+  - intros k0 db. rewrite Hnth. destruct (Nat.eqb_spec k k0) as [E|N0]; [|apply q_dr_active0].
+    unfold new. cbn [sh_tok]. intro E0. subst k0. apply (q_dr_active0 k db). fold old. destruct (sh_tok old); try discriminate; exact E0.
+  - intros k0 db rb it. rewrite Hnth. destruct (Nat.eqb_spec k k0) as [E|N0]; [|apply q_run_active0].
+    unfold new. cbn [sh_tok]. intro E0. subst k0. apply (q_run_active0 k db rb it). fold old. destruct (sh_tok old); try discriminate; exact E0.
+  - intros k0. rewrite Hnth. destruct (Nat.eqb_spec k k0) as [E|N0]; [|apply q_sorted0].
+    rewrite Hit. apply sorted2_snoc; [apply q_sorted0|]. intros [y e] Hc. cbn [snd].
+    specialize (Hstamp k y e Hc). lia.
+  - intros r0 sb Hr0 [<-|Hsb] Et; [prj; exfalso; apply Hfresh; rewrite Et; apply Hrt; exact Hr0|].
+    intros k0 Ek y e. rewrite Hnth. destruct (Nat.eqb_spec k k0) as [E|N0].
+    + rewrite Hit. intro Hin. apply in_app_or in Hin. destruct Hin as [Hin|[E0|[]]].
+      * subst k0. apply (q_run_items0 r0 sb Hr0 Hsb Et k Ek y e Hin).
+      * inversion E0; subst. destruct (H1 sb Hsb) as (_ & _ & X & _). lia.
+    + apply (q_run_items0 r0 sb Hr0 Hsb Et k0 Ek y e).
+  - intros ra rb sa sb Hra Hrb Hs [<-|Hsa] [<-|Hsb] Ea Eb; prj;
+      try (exfalso; apply Hfresh; rewrite Ea; apply Hrt; assumption);
+      try (exfalso; apply Hfresh; rewrite Eb; apply Hrt; assumption).
+    apply (q_fifo0 ra rb sa sb); assumption.
+  - intros k0 Hk0. rewrite Hnth. destruct (Nat.eqb_spec k k0) as [E|N0]; [|apply q_ktwo0; exact Hk0].
+    unfold new. cbn [sh_tok]. intro E0. destruct (sh_tok old); discriminate.
+  - destruct close; auto; destruct q_close0 as (X & _); discriminate.
+Qed.
+
+(* a drain step that neither consumes nor produces items (sh_items is unchanged) *)
+Lemma inv_sh_same b s k sh' : MInvB b s -> (k < length (m_shards s))%nat ->
+  sh_items sh' = sh_items (m_sh s k) -> sh_tok sh' <> TNone -> sh_tok (m_sh s k) <> TNone ->
+  (length (tok_items (sh_tok sh')) <= mbmax)%nat ->
+  (forall db, tok_db (sh_tok sh') = Some db ->
+     db <= b /\ forall d, In d (m_drains s) -> d_shard d = N.of_nat k -> d_e d < db) ->
+  (forall db rb it, sh_tok sh' = THandler db rb it ->
+     rb <= b /\ forall r, In r (m_runs s) -> r_shard r = N.of_nat k -> r_e r < rb) ->
+  MInvB b (m_set_sh s k sh').
+Proof.
+  intros [ ] Hk Hit Hn Ho Hl Hdb Hrb.
+  destruct s as [now closed shclosed shards pcs close cb subs runs drains clos]. unf.
+  set (old := nth k shards sh0) in *.
+  assert (Hlen : length (set_nth k sh' sh0 shards) = length shards) by (apply length_set_nth; exact Hk).
+  assert (Hnth : forall k0, nth k0 (set_nth k sh' sh0 shards) sh0 = if Nat.eqb k k0 then sh' else nth k0 shards sh0)
+    by (intro k0; apply nth_set_nth).
+  assert (Hcnt : forall y, cnt y (flat_map sh_tasks (set_nth k sh' sh0 shards) ++ map r_task runs)
+                  = cnt y (flat_map sh_tasks shards ++ map r_task runs)).
+  { intro y. pose proof (cnt_shards_set_nth y k sh' shards Hk) as E. fold old in E.
+    assert (Ht : sh_tasks sh' = sh_tasks old) by (unfold sh_tasks; rewrite Hit; reflexivity).
+    rewrite Ht in E. rewrite !cnt_app. lia. }
+  constructor; unf; rewrite ?Hlen; auto.
+  - intros k0 db. rewrite Hnth. destruct (Nat.eqb_spec k k0) as [E|N0]; [|apply q_tok_db0]. intro E0. apply (Hdb db E0).
+  - intros k0 db rb it. rewrite Hnth. destruct (Nat.eqb_spec k k0) as [E|N0]; [|apply q_tok_rb0]. intro E0. apply (Hrb db rb it E0).
+  - intros k0 x e. rewrite Hnth. destruct (Nat.eqb_spec k k0) as [E|N0]; [|apply q_stamp0]. rewrite Hit. apply q_stamp0.
+  - intro y. rewrite Hcnt. apply q_once0.
+  - intros k0 x e. rewrite Hnth. destruct (Nat.eqb_spec k k0) as [E|N0]; [|apply q_link0]. subst k0. rewrite Hit. apply q_link0.
+  - intros y Hy. apply cnt_In. rewrite Hcnt. apply cnt_In. apply q_ok_pl0. exact Hy.
+  - intros k0. rewrite Hnth. destruct (Nat.eqb_spec k k0) as [E|N0]; [exact Hl|apply q_items_len0].
+  - intros k0 db. rewrite Hnth. destruct (Nat.eqb_spec k k0) as [E|N0]; [|apply q_dr_active0]. subst k0. intro E0. apply (Hdb db E0).
+  - intros k0 db rb it. rewrite Hnth. destruct (Nat.eqb_spec k k0) as [E|N0]; [|apply q_run_active0]. subst k0. intro E0. apply (Hrb db rb it E0).
+  - intros k0. rewrite Hnth. destruct (Nat.eqb_spec k k0) as [E|N0]; [|apply q_sorted0]. rewrite Hit. apply q_sorted0.
+  - intros r sb Hr Hsb Et k0 Ek y e. rewrite Hnth. destruct (Nat.eqb_spec k k0) as [E|N0].
+    + subst k0. rewrite Hit. apply (q_run_items0 r sb Hr Hsb Et k Ek y e).
+    + apply (q_run_items0 r sb Hr Hsb Et k0 Ek y e).
+  - intros k0 Hk0. rewrite Hnth. destruct (Nat.eqb_spec k k0) as [E|N0]; [|apply q_ktwo0; exact Hk0].
+    intro E0. contradiction.
+  - destruct close; auto. destruct q_close0 as (_ & _ & A & _).
+    exfalso. apply Ho. apply all_unscheduled_nth. exact A.
+Qed.
+
+Definition run_sorted (l : list runr) : Prop :=
+  forall l1 a l2, l = l1 ++ a :: l2 -> forall r, In r l2 -> r_shard r = r_shard a -> r_b r = r_b a \/ r_e r < r_b a.
+
+Lemma run_sorted_prepend blk runs rb K : run_sorted runs ->
+  (forall n, In n blk -> r_b n = rb /\ r_shard n = K) ->
+  (forall r, In r runs -> r_shard r = K -> r_e r < rb) ->
+  run_sorted (blk ++ runs).
+Proof.
+  intros Hs Hb Ho. induction blk as [|n blk IH]; [exact Hs|].
+  intros l1 a l2 E r Hr Hsh. destruct l1 as [|y l1]; cbn [app] in E; inversion E; subst.
+  - destruct (Hb a (or_introl eq_refl)) as (Ea & Eb). apply in_app_or in Hr. destruct Hr as [Hr|Hr].
+    + left. destruct (Hb r (or_intror Hr)) as (Er & _). congruence.
+    + right. rewrite Ea. apply Ho; [exact Hr|congruence].
+  - apply (IH (fun n0 Hn0 => Hb n0 (or_intror Hn0)) l1 a l2 H1 r Hr Hsh).
+Qed.
+
+(* the handler returns: the batch's items become run records *)
+Lemma inv_handler_end b s k db rb items : MInvB b s -> b < m_now s -> (k < length (m_shards s))%nat ->
+  sh_tok (m_sh s k) = THandler db rb items ->
+  let s' := m_set_sh s k (Sh (sh_queue (m_sh s k)) (TNext db)) in
+  MInv (MSt (m_now s') (m_closed s') (m_shclosed s') (m_shards s') (m_pcs s') (m_close s') (m_cb s') (m_subs s')
+          (mk_runs_sh items (N.of_nat k) rb (m_now s) 0 ++ m_runs s') (m_drains s') (m_clos s')).
+Proof.
+  intros HI Hb Hk Htok. pose proof (q_tok_rb _ _ HI k db rb items Htok) as Hrb.
+  apply (inv_mono b (m_now s)) in HI; [|lia]. destruct HI as [ ].
+  destruct s as [now closed shclosed shards pcs close cb subs runs drains clos]. unf.
+  set (old := nth k shards sh0) in *. set (q := sh_queue old). set (new := Sh q (TNext db)).
+  set (NEW := mk_runs_sh items (N.of_nat k) rb now 0).
+  assert (Hold : sh_items old = items ++ q) by (unfold sh_items; rewrite Htok; reflexivity).
+  assert (Hnew : sh_items new = q) by reflexivity.
+  assert (Hlen : length (set_nth k new sh0 shards) = length shards) by (apply length_set_nth; exact Hk).
+  assert (Hnth : forall k0, nth k0 (set_nth k new sh0 shards) sh0 = if Nat.eqb k k0 then new else nth k0 shards sh0)
+    by (intro k0; apply nth_set_nth).
+  assert (Hcnt : forall y, cnt y (flat_map sh_tasks (set_nth k new sh0 shards) ++ map r_task (NEW ++ runs))
+                  = cnt y (flat_map sh_tasks shards ++ map r_task runs)).
+  { intro y. pose proof (cnt_shards_set_nth y k new shards Hk) as E. fold old in E.
+    unfold sh_tasks in E at 2 4. rewrite Hold, Hnew, map_app in E.
+    unfold NEW. rewrite map_app, map_task_mk_runs_sh, !cnt_app in *. lia. }
+  assert (HNEW : forall r, In r NEW -> r_b r = rb /\ r_e r = now /\ r_shard r = N.of_nat k
+                              /\ r_pos r < N.of_nat (length items) /\ exists e, In (r_task r, e) items).
+  { intros r Hr. destruct (mk_runs_sh_spec _ _ _ _ _ _ Hr) as (A & B & C & D & E). repeat split; auto. lia. }
+  assert (Hitq : forall x e, In (x, e) items -> In (x, e) (sh_items old)) by (intros; rewrite Hold; apply in_or_app; left; assumption).
+  assert (Hqq : forall x e, In (x, e) q -> In (x, e) (sh_items old)) by (intros; rewrite Hold; apply in_or_app; right; assumption).
+  (* the Submit record of an item is unique *)
+  assert (Hse : forall x e sb, In (x, e) (sh_items old) -> In sb subs -> s_task sb = x -> s_e sb = e).
+  { intros x e sb Hin Hsb Et. destruct (q_link0 k x e Hin) as (sb0 & A & B & _ & _ & C).
+    assert (sb0 = sb) by (eapply NoDup_map_inj; [exact q_subs_nd0|exact A|exact Hsb|congruence]). subst sb0. exact C. }
+  assert (Hilen : (length items <= mbmax)%nat) by (specialize (q_items_len0 k); fold old in q_items_len0; rewrite Htok in q_items_len0; exact q_items_len0).
+  pose proof (q_run_active0 k db rb items Htok) as Hact.
+  pose proof (q_sorted0 k) as Hsort. fold old in Hsort. rewrite Hold in Hsort.
+  constructor; unf; rewrite ?Hlen; auto.
+  - intros r Hr. apply in_app_or in Hr. destruct Hr as [Hr|Hr]; [|apply q_runs0; exact Hr].
+    destruct (HNEW r Hr) as (A & B & C & D & _). rewrite A, B. repeat split; try lia.
+    unfold Model.WorkQueue_mailbox.mbmax in Hilen. lia.
+  - intros k0 db0. rewrite Hnth. destruct (Nat.eqb_spec k k0) as [E|N0]; [|apply q_tok_db0].
+    cbn [new sh_tok tok_db]. intro E0. assert (Edb : db0 = db) by congruence. subst db0. apply (q_tok_db0 k db). fold old. rewrite Htok. reflexivity.
+  - intros k0 db0 rb0 it0. rewrite Hnth. destruct (Nat.eqb_spec k k0) as [E|N0]; [discriminate|apply q_tok_rb0].
+  - intros k0 x e. rewrite Hnth. destruct (Nat.eqb_spec k k0) as [E|N0]; [|apply q_stamp0].
+    rewrite Hnew. intro Hin. apply (q_stamp0 k x e). apply Hqq. exact Hin.
+  - intro y. rewrite Hcnt. apply q_once0.
+  - intros k0 x e. rewrite Hnth. destruct (Nat.eqb_spec k k0) as [E|N0]; [|apply q_link0].
+    subst k0. rewrite Hnew. intro Hin. apply (q_link0 k x e). apply Hqq. exact Hin.
+  - intros r Hr. apply in_app_or in Hr. destruct Hr as [Hr|Hr]; [|apply q_run_link0; exact Hr].
+    destruct (HNEW r Hr) as (_ & _ & C & _ & e & Hin).
+    destruct (q_link0 k _ e (Hitq _ _ Hin)) as (sb & A & B & D & F & _). exists sb. repeat split; auto. congruence.
+  - intros y Hy. apply cnt_In. rewrite Hcnt. apply cnt_In. apply q_ok_pl0. exact Hy.
+  - intros k0. rewrite Hnth. destruct (Nat.eqb_spec k k0) as [E|N0]; [cbn; lia|apply q_items_len0].
+  - intros k0 db0. rewrite Hnth. destruct (Nat.eqb_spec k k0) as [E|N0]; [|apply q_dr_active0].
+    subst k0. cbn [new sh_tok tok_db]. intro E0. assert (Edb : db0 = db) by congruence. subst db0. apply (q_dr_active0 k db). fold old. rewrite Htok. reflexivity.
+  - apply (run_sorted_prepend NEW runs rb (N.of_nat k)); [exact q_run_sorted0| |exact Hact].
+    intros n Hn. destruct (HNEW n Hn) as (A & _ & C & _). split; assumption.
+  - intros k0 db0 rb0 it0. rewrite Hnth. destruct (Nat.eqb_spec k k0) as [E|N0]; [discriminate|].
+    intros E0 r Hr Hs. apply in_app_or in Hr. destruct Hr as [Hr|Hr]; [|apply (q_run_active0 k0 db0 rb0 it0 E0 r Hr Hs)].
+    destruct (HNEW r Hr) as (_ & _ & C & _). rewrite C in Hs. apply Nat2N.inj in Hs. contradiction.
+  - intros k0. rewrite Hnth. destruct (Nat.eqb_spec k k0) as [E|N0]; [|apply q_sorted0].
+    rewrite Hnew. eapply sorted2_app_r. exact Hsort.
+  - intros r sb Hr Hsb Et k0 Ek y e. rewrite Hnth. apply in_app_or in Hr. destruct Hr as [Hr|Hr].
+    + destruct (HNEW r Hr) as (_ & _ & C & _ & er & Hin). rewrite C in Ek. apply Nat2N.inj in Ek. subst k0.
+      rewrite Nat.eqb_refl, Hnew. intro Hy.
+      rewrite (Hse _ er sb (Hitq _ _ Hin) Hsb Et).
+      apply (sorted2_cross _ _ Hsort (r_task r, er) (y, e) Hin Hy).
+    + destruct (Nat.eqb_spec k k0) as [E|N0].
+      * subst k0. rewrite Hnew. intro Hy. apply (q_run_items0 r sb Hr Hsb Et k Ek y e). apply Hqq. exact Hy.
+      * apply (q_run_items0 r sb Hr Hsb Et k0 Ek y e).
+  - intros ra rb' sa sb Hra Hrb' Hs Hsa Hsb Ea Eb Hlt.
+    apply in_app_or in Hra. apply in_app_or in Hrb'. destruct Hra as [Hra|Hra], Hrb' as [Hrb'|Hrb'].
+    + destruct (HNEW ra Hra) as (A1 & _ & _ & _ & ea & Hia). destruct (HNEW rb' Hrb') as (A2 & _ & _ & _ & eb & Hib).
+      unfold run_before. rewrite A1, A2, N.eqb_refl. cbn [andb]. apply orb_true_iff. right. apply N.ltb_lt.
+      apply (mk_runs_sh_order items (N.of_nat k) rb now (sorted2_app_l _ _ Hsort) 0 ra rb' (s_e sa) (s_e sb)); auto.
+      * rewrite (Hse _ ea sa (Hitq _ _ Hia) Hsa Ea). exact Hia.
+      * rewrite (Hse _ eb sb (Hitq _ _ Hib) Hsb Eb). exact Hib.
+      * intros x e e' H1 H2. destruct (q_link0 k x e (Hitq _ _ H1)) as (s1 & P1 & P2 & _ & _ & P3).
+        rewrite <- P3. apply (Hse x e' s1 (Hitq _ _ H2) P1 P2).
+    + exfalso. destruct (HNEW ra Hra) as (_ & _ & C & _ & ea & Hia).
+      pose proof (q_run_items0 rb' sb Hrb' Hsb Eb k ltac:(congruence) _ ea (Hitq _ _ Hia)) as X.
+      rewrite (Hse _ ea sa (Hitq _ _ Hia) Hsa Ea) in Hlt. lia.
+    + destruct (HNEW rb' Hrb') as (A2 & _ & C & _). unfold run_before. apply orb_true_iff. left. apply N.ltb_lt.
+      rewrite A2. pose proof (Hact ra Hra ltac:(congruence)) as X. destruct (q_runs0 ra Hra) as (Y & _). lia.
+    + apply (q_fifo0 ra rb' sa sb); assumption.
+  - intros k0 Hk0. rewrite Hnth. destruct (Nat.eqb_spec k k0) as [E|N0]; [discriminate|apply q_ktwo0; exact Hk0].
+  - destruct close; auto. destruct q_close0 as (_ & _ & A & _).
+    pose proof (all_unscheduled_nth shards k A) as X. fold old in X. rewrite Htok in X. discriminate.
+Qed.
+
+(* finishShardDrain *)
+Lemma inv_finish b s k db tok' : MInvB b s -> b < m_now s -> (k < length (m_shards s))%nat ->
+  sh_tok (m_sh s k) = TFinish db -> (tok' = TSched \/ tok' = TNone) ->
+  let s' := m_set_sh s k (Sh (sh_queue (m_sh s k)) tok') in
+  MInv (MSt (m_now s') (m_closed s') (m_shclosed s') (m_shards s') (m_pcs s') (m_close s') (m_cb s') (m_subs s')
+          (m_runs s') (Drn (N.of_nat k) db (m_now s) :: m_drains s') (m_clos s')).
+Proof.
+  intros HI Hb Hk Htok Ht'. pose proof (q_tok_db _ _ HI k db) as Hdb. rewrite Htok in Hdb. specialize (Hdb eq_refl).
+  apply (inv_mono b (m_now s)) in HI; [|lia]. destruct HI as [ ].
+  destruct s as [now closed shclosed shards pcs close cb subs runs drains clos]. unf.
+  set (old := nth k shards sh0) in *. set (new := Sh (sh_queue old) tok').
+  assert (Hit : sh_items new = sh_items old).
+  { unfold sh_items, new. cbn [sh_tok sh_queue]. rewrite Htok. destruct Ht' as [-> | ->]; reflexivity. }
+  assert (Hti : tok_items tok' = []) by (destruct Ht' as [-> | ->]; reflexivity).
+  assert (Htd : tok_db tok' = None) by (destruct Ht' as [-> | ->]; reflexivity).
+  assert (Hlen : length (set_nth k new sh0 shards) = length shards) by (apply length_set_nth; exact Hk).
+  assert (Hnth : forall k0, nth k0 (set_nth k new sh0 shards) sh0 = if Nat.eqb k k0 then new else nth k0 shards sh0)
+    by (intro k0; apply nth_set_nth).
+  assert (Hcnt : forall y, cnt y (flat_map sh_tasks (set_nth k new sh0 shards) ++ map r_task runs)
+                  = cnt y (flat_map sh_tasks shards ++ map r_task runs)).
+  { intro y. pose proof (cnt_shards_set_nth y k new shards Hk) as E. fold old in E.
+    assert (Ht : sh_tasks new = sh_tasks old) by (unfold sh_tasks; rewrite Hit; reflexivity).
+    rewrite Ht in E. rewrite !cnt_app. lia. }
+  pose proof (q_dr_active0 k db) as Hact. fold old in Hact. rewrite Htok in Hact. specialize (Hact eq_refl).
+  constructor; unf; rewrite ?Hlen; auto.
+  - intros d [<-|Hd]; [prj; split; lia|apply q_drains0; exact Hd].
+  - intros k0 db0. rewrite Hnth. destruct (Nat.eqb_spec k k0) as [E|N0]; [|apply q_tok_db0].
+    cbn [new sh_tok]. rewrite Htd. discriminate.
+  - intros k0 db0 rb0 it0. rewrite Hnth. destruct (Nat.eqb_spec k k0) as [E|N0]; [|apply q_tok_rb0].
+    cbn [new sh_tok]. destruct Ht' as [-> | ->]; discriminate.
+  - intros k0 x e. rewrite Hnth. destruct (Nat.eqb_spec k k0) as [E|N0]; [|apply q_stamp0]. rewrite Hit. apply q_stamp0.
+  - intro y. rewrite Hcnt. apply q_once0.
+  - intros k0 x e. rewrite Hnth. destruct (Nat.eqb_spec k k0) as [E|N0]; [|apply q_link0]. subst k0. rewrite Hit. apply q_link0.
+  - intros y Hy. apply cnt_In. rewrite Hcnt. apply cnt_In. apply q_ok_pl0. exact Hy.
+  - intros k0. rewrite Hnth. destruct (Nat.eqb_spec k k0) as [E|N0]; [|apply q_items_len0].
+    cbn [new sh_tok]. rewrite Hti. cbn. lia.
+  - intros l1 a l2 E d Hd Hs. destruct l1 as [|y l1]; cbn [app] in E; inversion E; subst.
+    + cbn [d_shard d_b] in *. apply Hact; assumption.
+    + apply (q_dr_sorted0 l1 a l2 eq_refl d Hd Hs).
+  - intros k0 db0. rewrite Hnth. destruct (Nat.eqb_spec k k0) as [E|N0].
+    + cbn [new sh_tok]. rewrite Htd. discriminate.
+    + intros E0 d [<-|Hd] Hs; [cbn [d_shard] in Hs; apply Nat2N.inj in Hs; contradiction|].
+      apply (q_dr_active0 k0 db0 E0 d Hd Hs).
+  - intros k0 db0 rb0 it0. rewrite Hnth. destruct (Nat.eqb_spec k k0) as [E|N0]; [|apply q_run_active0].
+    cbn [new sh_tok]. destruct Ht' as [-> | ->]; discriminate.
+  - intros k0. rewrite Hnth. destruct (Nat.eqb_spec k k0) as [E|N0]; [|apply q_sorted0]. rewrite Hit. apply q_sorted0.
+  - intros r sb Hr Hsb Et k0 Ek y e. rewrite Hnth. destruct (Nat.eqb_spec k k0) as [E|N0].
+    + subst k0. rewrite Hit. apply (q_run_items0 r sb Hr Hsb Et k Ek y e).
+    + apply (q_run_items0 r sb Hr Hsb Et k0 Ek y e).
+  - intros k0 Hk0. rewrite Hnth. destruct (Nat.eqb_spec k k0) as [E|N0].
+    + intros _ _. subst k0. eexists. split; [left; reflexivity|reflexivity].
+    + intros E0 Hq. destruct (q_ktwo0 k0 Hk0 E0 Hq) as (d & A & B). exists d. split; [right; exact A|exact B].
+  - destruct close; auto. destruct q_close0 as (_ & _ & A & _).
+    pose proof (all_unscheduled_nth shards k A) as X. fold old in X. rewrite Htok in X. discriminate.
+Qed.
+
+(* Close *)
+Lemma inv_close_call b s : MInvB b s -> b < m_now s -> m_close s = CIdle ->
+  MInv (m_set_close s (m_closed s) (m_shclosed s) (CStart (m_now s)) (m_now s) (m_clos s)).
+Proof.
+  intros HI Hb Hc. apply (inv_mono b (m_now s)) in HI; [|lia]. destruct HI as [ ].
+  destruct s as [now closed shclosed shards pcs close cb subs runs drains clos]. unf. subst close.
+  destruct q_close0 as (A & B & C). subst.
+  constructor; unf; auto.
+  - repeat split; auto. lia.
+  - lia.
+Qed.
+
+Lemma inv_close_store b s cb : MInvB b s -> m_close s = CStart cb ->
+  MInvB b (m_set_close s true (m_shclosed s) (CMid cb) (m_cb s) (m_clos s)).
+Proof.
+  intros [ ] Hc.
+  destruct s as [now closed shclosed shards pcs close cb0 subs runs drains clos]. unf. subst close.
+  destruct q_close0 as (A & B & C & D & E). subst.
+  constructor; unf; auto; repeat split; auto.
+Qed.
+
+Lemma inv_close_mid b s cb : MInvB b s -> m_close s = CMid cb ->
+  MInvB b (m_set_close s (m_closed s) true (CWait cb) (m_cb s) (m_clos s)).
+Proof.
+  intros [ ] Hc.
+  destruct s as [now closed shclosed shards pcs close cb0 subs runs drains clos]. unf. subst close.
+  destruct q_close0 as (A & B & C & D & E). subst.
+  constructor; unf; auto; repeat split; auto.
+Qed.
+
+Lemma inv_close_done b s cb : MInvB b s -> b < m_now s -> m_close s = CWait cb ->
+  all_unscheduled (m_shards s) = true ->
+  MInv (m_set_close s (m_closed s) (m_shclosed s) CDone (m_cb s) (Clo cb (m_now s) true :: m_clos s)).
+Proof.
+  intros HI Hb Hc Hall. pose proof (q_runs _ _ HI) as Hruns. pose proof (q_cb _ _ HI) as Hcb.
+  apply (inv_mono b (m_now s)) in HI; [|lia]. destruct HI as [ ].
+  destruct s as [now closed shclosed shards pcs close cb0 subs runs drains clos]. unf. subst close.
+  destruct q_close0 as (A & B & C & D & E). subst.
+  constructor; unf; auto.
+  repeat split; auto. exists now. repeat split; auto; try lia.
+  intros r Hr. destruct (Hruns r Hr) as (_ & X & _). lia.
+Qed.
+
+Ltac bnd := unfold MInv; cbn [m_now m_set_pc m_upd m_set_sh m_set_close m_ret]; lia.
+
+Lemma inv_tok_step s k c : MInv s -> let s1 := m_tick s in MInv (m_tok_step cf s1 k c).
+Proof.
+  intros HI0 s1. pose proof (inv_tick s HI0) as HB.
+  assert (Hb : m_now s < m_now s1) by (unfold s1; cbn; lia).
+  assert (HM : MInv s1) by (apply (inv_mono (m_now s)); [lia|exact HB]).
+  fold s1 in HB. unfold m_tok_step.
+  destruct (Nat.ltb_spec k (length (m_shards s1))) as [Hk|Hk]; cbn [negb]; [|exact HM].
+  destruct (sh_tok (m_sh s1 k)) as [| |db|db items|db rb items|db] eqn:Htok; [exact HM| | | | |].
+  - (* drain starts *)
+    apply inv_sh_same; auto; cbn [sh_tok tok_items tok_db length]; try discriminate; try lia.
+    + unfold sh_items. cbn [sh_tok sh_queue]. rewrite Htok. reflexivity.
+    + rewrite Htok. discriminate.
+    + intros db E. inversion E; subst. split; [unfold MInv; cbn [m_now m_set_sh m_upd]; lia|].
+      intros d Hd _. destruct (q_drains _ _ HB d Hd) as (_ & X). lia.
+  - (* nextItem *)
+    pose proof (q_tok_db _ _ HB k db) as Hdb. rewrite Htok in Hdb. specialize (Hdb eq_refl).
+    pose proof (q_dr_active _ _ HB k db) as Hact. rewrite Htok in Hact. specialize (Hact eq_refl).
+    destruct (sh_queue (m_sh s1 k)) as [|it r] eqn:Hq; (apply (inv_mono (m_now s)); [bnd|]);
+      apply inv_sh_same; auto; cbn [sh_tok tok_items tok_db length]; try discriminate; try lia;
+      try (rewrite Htok; discriminate);
+      try (unfold sh_items; cbn [sh_tok sh_queue tok_items]; rewrite Htok, Hq; reflexivity);
+      try (intros db0 E; inversion E; subst; split; assumption).
+    pose proof (mbmax_pos) as X. lia.
+  - (* collectBatch *)
+    pose proof (q_tok_db _ _ HB k db) as Hdb. rewrite Htok in Hdb. specialize (Hdb eq_refl).
+    pose proof (q_dr_active _ _ HB k db) as Hact. rewrite Htok in Hact. specialize (Hact eq_refl).
+    pose proof (q_items_len _ _ HB k) as Hil. rewrite Htok in Hil. cbn [tok_items] in Hil.
+    destruct c; try exact HM.
+    + destruct (sh_queue (m_sh s1 k)) as [|it r] eqn:Hq; [exact HM|].
+      destruct (Nat.ltb_spec (length items) mbmax) as [Hlt|Hge]; [|exact HM].
+      apply (inv_mono (m_now s)); [bnd|].
+      apply inv_sh_same; auto; cbn [sh_tok tok_items tok_db]; try discriminate.
+      * unfold sh_items. cbn [sh_tok sh_queue tok_items]. rewrite Htok, Hq. cbn [tok_items]. rewrite <- app_assoc. reflexivity.
+      * rewrite Htok. discriminate.
+      * rewrite app_length. cbn [length]. lia.
+      * intros db0 E; inversion E; subst; split; assumption.
+    + apply inv_sh_same; auto; cbn [sh_tok tok_items tok_db]; try discriminate.
+      * unfold sh_items. cbn [sh_tok sh_queue tok_items]. rewrite Htok. reflexivity.
+      * rewrite Htok. discriminate.
+      * intros db0 E; inversion E; subst. split; [unfold MInv; cbn [m_now m_set_sh m_upd]; lia|]. intros d Hd Hs. apply Hact; assumption.
+      * intros db0 rb0 it0 E. inversion E; subst. split; [unfold MInv; cbn [m_now m_set_sh m_upd]; lia|].
+        intros r Hr _. destruct (q_runs _ _ HB r Hr) as (_ & X & _). lia.
+  - apply (inv_handler_end (m_now s)); auto.
+  - apply (inv_finish (m_now s)); auto.
+    destruct (negb match sh_queue (m_sh s1 k) with [] => true | _ :: _ => false end && negb (m_shclosed s1) && negb (m_closed s1)); auto.
+Qed.
+
+Lemma inv_step s e : MInv s -> MInv (m_step s e).
+Proof.
+  intro HI0. pose proof (inv_tick s HI0) as HB. unfold Model.WorkQueue_mailbox.m_step.
+  destruct e as [t k|t|k c| |]; [| |apply inv_tok_step; exact HI0| |].
+  all: set (s1 := m_tick s) in *; assert (Hb : m_now s < m_now s1) by (unfold s1; cbn; lia);
+       assert (HM : MInv s1) by (apply (inv_mono (m_now s)); [lia|exact HB]).
+  - destruct (m_pc s1 t) eqn:Hpc; try exact HM.
+    destruct (Nat.ltb_spec k (length (m_shards s1))) as [Hk|Hk]; [|exact HM].
+    apply (inv_call (m_now s)); auto.
+  - unfold m_thread_step. destruct (m_pc s1 t) as [|x st k|x st k] eqn:Hpc; [exact HM| |].
+    + destruct (m_closed s1) eqn:Hcl.
+      * apply (inv_ret_rej (m_now s)); auto; [rewrite Hpc; reflexivity|discriminate].
+      * apply (inv_mono (m_now s)); [bnd|]. apply inv_pc_move; auto. rewrite Hpc. reflexivity.
+    + destruct (m_shclosed s1 || m_closed s1) eqn:Hcl.
+      * apply (inv_ret_rej (m_now s)); auto; [rewrite Hpc; reflexivity|discriminate].
+      * destruct (mcap cf <=? N.of_nat (length (sh_queue (m_sh s1 k)))).
+        -- apply (inv_ret_rej (m_now s)); auto; [rewrite Hpc; reflexivity|discriminate].
+        -- apply orb_false_iff in Hcl. destruct Hcl as (_ & Hcl).
+           apply (inv_ret_ok (m_now s)); auto. rewrite Hpc; reflexivity.
+  - destruct (m_close s1) eqn:Hc; try exact HM. apply (inv_close_call (m_now s)); auto.
+  - destruct (m_close s1) as [|cb|cb|cb|] eqn:Hc; try exact HM.
+    + apply (inv_mono (m_now s)); [bnd|]. apply inv_close_store; auto.
+    + apply (inv_mono (m_now s)); [bnd|]. apply inv_close_mid; auto.
+    + destruct (all_unscheduled (m_shards s1)) eqn:Hall; [|exact HM]. apply (inv_close_done (m_now s)); auto.
+Qed.
+
+Lemma nth_repeat_sh0 i n : nth i (repeat sh0 n) sh0 = sh0.
+Proof.
+  destruct (nth_In_or_default i (repeat sh0 n) sh0) as [H|H]; [apply repeat_spec in H|]; exact H.
+Qed.
+
+Lemma flat_repeat_sh0 n : flat_map sh_tasks (repeat sh0 n) = [].
+Proof. induction n; cbn; auto. Qed.
+
+Lemma inv_init : MInv (m_init cf).
+Proof.
+  unfold MInv, m_init. constructor; unf; rewrite ?flat_repeat_sh0, ?repeat_length; cbn [app]; intros;
+    repeat match goal with
+           | H : context [nth _ (repeat sh0 _) sh0] |- _ => rewrite nth_repeat_sh0 in H; cbn in H
+           | H : context [nth ?t [] MIdle] |- _ => destruct t; cbn [nth pc_task] in H
+           | |- context [nth _ (repeat sh0 _) sh0] => rewrite nth_repeat_sh0; cbn
+           end;
+    try discriminate; try contradiction; try (constructor; fail); try (cbn; lia); auto.
+  all: try match goal with H : okset [] _ |- _ => destruct H as (sb & [] & _) end.
+  all: try (exfalso; congruence).
+  all: try (repeat split; reflexivity).
+  all: try match goal with H : _ = _ ++ _ :: _ |- _ => destruct l1; discriminate end.
+  all: try (intros l1 a l2 E; destruct l1; discriminate).
+Qed.
+
+Lemma inv_fold evs : forall s, MInv s -> MInv (fold_left m_step evs s).
+Proof. induction evs as [|e evs IH]; intros s H; [exact H|]. cbn [fold_left]. apply IH. apply inv_step. exact H. Qed.
+
+Theorem inv_run evs : MInv (m_run evs).
+Proof. apply inv_fold. exact inv_init. Qed.
+
+(* ---- consequences --------------------------------------------------------------------------- *)
+
+Lemma m_at_most_once evs : NoDup (map r_task (m_runs (m_run evs))).
+Proof.
+  pose proof (inv_run evs) as HI. apply NoDup_cnt. intro x. pose proof (q_once _ _ HI x) as H.
+  unfold all_tasks in H. rewrite cnt_app in H. lia.
+Qed.
+
+Lemma m_sub_unique evs sa sb : In sa (m_subs (m_run evs)) -> In sb (m_subs (m_run evs)) -> s_task sa = s_task sb -> sa = sb.
+Proof. intros. eapply NoDup_map_inj; eauto. apply (q_subs_nd _ _ (inv_run evs)). Qed.
+
+Lemma m_rejected_never_runs evs sb :
+  In sb (m_subs (m_run evs)) -> s_res sb <> ROk -> ~ In (s_task sb) (map r_task (m_runs (m_run evs))).
+Proof.
+  intros Hin Hr Hran. pose proof (inv_run evs) as HI. apply in_map_iff in Hran. destruct Hran as (r & Et & Hr0).
+  destruct (q_run_link _ _ HI r Hr0) as (sb' & Hin' & Et' & Er & _).
+  assert (sb' = sb) by (apply (m_sub_unique evs); auto; congruence). subst sb'. contradiction.
+Qed.
+
+Lemma m_single_drain evs :
+  all_pairs drains_disjoint (m_drains (m_run evs)) = true /\ all_pairs runs_disjoint (m_runs (m_run evs)) = true.
+Proof.
+  pose proof (inv_run evs) as HI. split; apply all_pairs_intro; intros l1 a l2 b l3 E.
+  - pose proof (q_dr_sorted _ _ HI l1 a (l2 ++ b :: l3) E b) as H.
+    assert (Hin : In b (l2 ++ b :: l3)) by (apply in_or_app; right; left; reflexivity). specialize (H Hin).
+    unfold drains_disjoint. destruct (N.eqb_spec (d_shard a) (d_shard b)) as [Es|Ns].
+    + specialize (H (eq_sym Es)). apply N.ltb_lt in H. rewrite H. rewrite (proj2 (N.eqb_eq _ _) (eq_sym Es)).
+      cbn [negb orb]. rewrite !orb_true_r. split; reflexivity.
+    + cbn [negb orb]. destruct (N.eqb_spec (d_shard b) (d_shard a)); [congruence|]. split; reflexivity.
+  - pose proof (q_run_sorted _ _ HI l1 a (l2 ++ b :: l3) E b) as H.
+    assert (Hin : In b (l2 ++ b :: l3)) by (apply in_or_app; right; left; reflexivity). specialize (H Hin).
+    unfold runs_disjoint. destruct (N.eqb_spec (r_shard a) (r_shard b)) as [Es|Ns].
+    + specialize (H (eq_sym Es)). rewrite (proj2 (N.eqb_eq _ _) (eq_sym Es)). cbn [negb orb].
+      destruct H as [H|H].
+      * rewrite H, N.eqb_refl. cbn [orb]. split; reflexivity.
+      * apply N.ltb_lt in H. rewrite H, !orb_true_r. split; reflexivity.
+    + cbn [negb orb]. destruct (N.eqb_spec (r_shard b) (r_shard a)); [congruence|]. split; reflexivity.
+Qed.
+
+(* shard FIFO on caller-observable order *)
+Lemma m_fifo_pair evs a b : In a (m_subs (m_run evs)) -> In b (m_subs (m_run evs)) ->
+  fifo_pair (m_hist (m_run evs)) a b = true.
+Proof.
+  intros Ha Hb. pose proof (inv_run evs) as HI. unfold fifo_pair.
+  destruct (is_ok (s_res a) && is_ok (s_res b) && (s_shard a =? s_shard b) && (s_e a <? s_b b)) eqn:Hc; [|reflexivity].
+  repeat (apply andb_true_iff in Hc; destruct Hc as [Hc ?]).
+  apply N.eqb_eq in H0. apply N.ltb_lt in H.
+  apply forallb_forall. intros ra Hra. destruct (N.eqb_spec (r_task ra) (s_task a)) as [Ea|Na]; [|reflexivity].
+  cbn [negb orb]. apply forallb_forall. intros rb Hrb. destruct (N.eqb_spec (r_task rb) (s_task b)) as [Eb|Nb]; [|reflexivity].
+  cbn [negb orb]. cbn [m_hist h_runs] in Hra, Hrb.
+  destruct (q_run_link _ _ HI ra Hra) as (sa' & A1 & A2 & _ & A3).
+  destruct (q_run_link _ _ HI rb Hrb) as (sb' & B1 & B2 & _ & B3).
+  assert (sa' = a) by (apply (m_sub_unique evs); auto; congruence).
+  assert (sb' = b) by (apply (m_sub_unique evs); auto; congruence). subst sa' sb'.
+  apply (q_fifo _ _ HI ra rb a b); auto; try congruence.
+  destruct (q_subs _ _ HI b Hb) as (_ & X & _). lia.
+Qed.
+
+Lemma m_fifo evs : all_pairs (fifo_pair (m_hist (m_run evs))) (m_subs (m_run evs)) = true.
+Proof.
+  apply all_pairs_intro. intros l1 a l2 b l3 E.
+  assert (Ha : In a (m_subs (m_run evs))) by (rewrite E; apply in_or_app; right; left; reflexivity).
+  assert (Hb : In b (m_subs (m_run evs))) by (rewrite E; apply in_or_app; right; right; apply in_or_app; right; left; reflexivity).
+  split; apply m_fifo_pair; assumption.
+Qed.
+
+(* what Close's return guarantees for an admitted item *)
+Lemma m_close_waits evs c sb :
+  In c (m_clos (m_run evs)) -> In sb (m_subs (m_run evs)) -> s_res sb = ROk ->
+  let s := m_run evs in
+  (exists r, In r (m_runs s) /\ r_task r = s_task sb /\ r_e r < l_e c)
+  \/ (~ In (s_task sb) (map r_task (m_runs s)) /\ exists d, In d (m_drains s) /\ d_shard d = s_shard sb).
+Proof.
+  intros Hc Hin Hr s. pose proof (inv_run evs) as HI. fold s in HI, Hc, Hin. pose proof (q_close _ _ HI) as HC.
+  unfold close_inv in HC. destruct (m_close s).
+  - destruct HC as (_ & _ & E). rewrite E in Hc. destruct Hc.
+  - destruct HC as (_ & _ & E & _). rewrite E in Hc. destruct Hc.
+  - destruct HC as (_ & _ & E & _). rewrite E in Hc. destruct Hc.
+  - destruct HC as (_ & _ & E & _). rewrite E in Hc. destruct Hc.
+  - destruct HC as (_ & _ & Hall & ce & E & _ & _ & Hruns). rewrite E in Hc. destruct Hc as [<-|[]]. cbn [l_e].
+    assert (Hpl : In (s_task sb) (all_tasks s)) by (apply (q_ok_pl _ _ HI); exists sb; auto).
+    pose proof (q_once _ _ HI (s_task sb)) as Honce. unfold all_tasks in Hpl, Honce. rewrite cnt_app in Honce.
+    apply in_app_or in Hpl. destruct Hpl as [Hsh|Hran].
+    + right. split.
+      * intro Ht. apply cnt_In in Ht. apply cnt_In in Hsh. lia.
+      * apply in_flat_map_nth in Hsh. destruct Hsh as (k & Hk & Hin').
+        unfold sh_tasks in Hin'. apply in_map_iff in Hin'. destruct Hin' as ([x e] & Ex & Hit). cbn [fst] in Ex. subst x.
+        destruct (q_link _ _ HI k _ e Hit) as (sb' & A & B & _ & D & _).
+        assert (sb' = sb) by (apply (m_sub_unique evs); auto). subst sb'.
+        pose proof (all_unscheduled_nth _ k Hall) as Htok.
+        unfold sh_items in Hit. unfold m_sh in *. rewrite Htok in Hit. cbn [tok_items app] in Hit.
+        destruct (q_ktwo _ _ HI k Hk Htok) as (d & Hd & Ed).
+        { intro E0. unfold m_sh in E0. rewrite E0 in Hit. destruct Hit. }
+        exists d. split; [exact Hd|congruence].
+    + left. apply in_map_iff in Hran. destruct Hran as (r & Er & Hr'). exists r. repeat split; auto.
+Qed.
+
+Hypothesis kind_mb : c_kind cf = KMailbox.
+
+Theorem m_monitor evs : allowed 3 (C37_monitor (m_hist (m_run evs))).
+Proof.
+  pose proof (inv_run evs) as HI.
+  apply monitor_allowed; [discriminate| | | | |].
+  - apply ok_once_intro. unfold terminal_ids, m_hist. cbn [h_runs h_cans map]. rewrite app_nil_r. apply m_at_most_once.
+  - apply ok_rejected_intro. intros sb Hin Hr. unfold terminal_ids, m_hist. cbn [h_runs h_cans map]. rewrite app_nil_r.
+    apply m_rejected_never_runs; [exact Hin|]. intro E. rewrite E in Hr. discriminate.
+  - reflexivity.
+  - unfold ok_mailbox.
+    replace (c_kind (h_cfg (m_hist (m_run evs)))) with KMailbox by (symmetry; exact kind_mb). cbn [kind_eqb].
+    destruct (m_single_drain evs) as (A & B).
+    apply andb_true_iff; split; [apply andb_true_iff; split|]; [exact A|exact B|exact (m_fifo evs)].
+  - intros c Hc _ sb Hin Hr.
+    assert (Er : s_res sb = ROk) by (destruct (s_res sb); try discriminate; reflexivity).
+    destruct (m_close_waits evs c sb Hc Hin Er) as [(r & A & B & C)|(Hnt & d & Hd & Ed)].
+    + left. apply task_code_zero. eapply terminal_before_run; eauto.
+    + right. unfold task_code.
+      assert (Hnt' : ~ In (s_task sb) (terminal_ids (m_hist (m_run evs)))).
+      { unfold terminal_ids, m_hist. cbn [h_runs h_cans map]. rewrite app_nil_r. exact Hnt. }
+      rewrite (terminal_before_false _ _ _ Hnt'), (has_terminal_false _ _ Hnt').
+      replace (c_kind (h_cfg (m_hist (m_run evs)))) with KMailbox by (symmetry; exact kind_mb).
+      replace (existsb (fun d0 => d_shard d0 =? s_shard sb) (h_drains (m_hist (m_run evs)))) with true; [reflexivity|].
+      symmetry. apply existsb_exists. exists d. split; [exact Hd|apply N.eqb_eq; exact Ed].
+Qed.
+
+Theorem m_accepts evs : C37_mismatch (m_hist (m_run evs)) = false.
+Proof.
+  pose proof (inv_run evs) as HI. unfold C37_mismatch. apply negb_false_iff.
+  repeat (apply andb_true_iff; split).
+  - apply nodupb_NoDup. apply (q_subs_nd _ _ HI).
+  - apply forallb_forall. intros sb Hin. apply N.ltb_lt. apply (q_subs _ _ HI sb Hin).
+  - apply forallb_forall. intros r Hin. apply N.ltb_lt. apply (q_runs _ _ HI r Hin).
+  - apply forallb_forall. intros c Hc. apply N.ltb_lt. cbn [m_hist h_clos] in Hc.
+    pose proof (q_close _ _ HI) as HC. unfold close_inv in HC. destruct (m_close (m_run evs)).
+    + destruct HC as (_ & _ & E). rewrite E in Hc. destruct Hc.
+    + destruct HC as (_ & _ & E & _). rewrite E in Hc. destruct Hc.
+    + destruct HC as (_ & _ & E & _). rewrite E in Hc. destruct Hc.
+    + destruct HC as (_ & _ & E & _). rewrite E in Hc. destruct Hc.
+    + destruct HC as (_ & _ & _ & ce & E & Hlt & _). rewrite E in Hc. destruct Hc as [<-|[]]. exact Hlt.
+  - apply forallb_forall. intros d Hd. apply N.ltb_lt. apply (q_drains _ _ HI d Hd).
+  - unfold batch_size_ok. apply forallb_forall. intros r Hin. apply N.ltb_lt. apply (q_runs _ _ HI r Hin).
+  - unfold shards_ok. apply forallb_forall. intros sb Hin. apply N.ltb_lt.
+    destruct (q_subs _ _ HI sb Hin) as (_ & _ & _ & E). rewrite (q_len _ _ HI) in E.
+    unfold Model.WorkQueue_mailbox.nshards in E. cbn [m_hist h_cfg]. lia.
+Qed.
 
 End MailboxProof.
